@@ -63,7 +63,7 @@ def merge_vals(conds, vals):
     return Val(v0.t, lv, loc=v0.loc, arr=v0.arr, fn=v0.fn, bindings=v0.bindings)
 
 
-def merge_states(cx, parent, states, base_len, base_pc):
+def merge_states(cx, parent, states, base_len, base_pc, live=None):
     """states: arms that reached the join. Returns a merged state derived from `parent`
     (the solver is at the parent's level), or None when shapes differ."""
     if len(states) == 1:
@@ -88,6 +88,8 @@ def merge_states(cx, parent, states, base_len, base_pc):
         v = merge_vals(conds, [s.regs[k] for s in states])
         if v is not None:
             regs[k] = v
+        elif live is None or k in live:
+            return None   # a register that may still be read cannot be merged: keep the arms apart
     m.regs = regs
     # names: keep agreeing entries
     names = dict(states[0].names)
@@ -101,7 +103,8 @@ def merge_states(cx, parent, states, base_len, base_pc):
     for s in states:
         allkeys |= set(s.heap.r.keys())
     h = parent.heap.copy()
-    extra_events = any(len(s.heap.events) != len(parent.heap.events) for s in states)
+    ids0 = [id(e) for e in states[0].heap.events]
+    extra_events = any([id(e) for e in s.heap.events] != ids0 for s in states)
     for key in allkeys:
         sd = None
         for s in states:
@@ -139,11 +142,8 @@ def merge_states(cx, parent, states, base_len, base_pc):
         F = z3.Int(fresh_name('frontier_join'))
         m.frontier = F
     if extra_events:
-        from .calls import fresh_evid
-        mat = set(allkeys)
-        ev = Event(fresh_evid(), lambda key, mat=mat: key not in mat, m.frontier, None, 'join of arms with different havoc histories')
-        h.events = list(parent.heap.events) + [ev]
-        # regions materialised in the parent but in no arm cannot exist (arms copy the parent)
+        from .state import JoinEvent
+        h.events = [JoinEvent([(c, list(s.heap.events)) for c, s in zip(conds, states)])]
     else:
         h.events = list(states[0].heap.events)
     # layer frontiers refer to arm frontiers <= merged frontier
